@@ -28,7 +28,7 @@ ASSUMPTIONS = ['failpoints sit at python-level step boundaries; a crash inside o
                'a hung pool after a dead worker is killed by the watchdog and judged on the files it left (no liveness claim)',
                'the clean run must report success, otherwise the case is inconclusive']
 MIN_NONTRIVIAL = {'quick': 50, 'thorough': 1500}
-REQUIRED_MONITORS = ['trace:steps_recorded', 'fault:fired', 'fault:raise', 'fault:exit', 'fault:kill', 'fault:persistent', 'history:stale_success_of_earlier_run', 'layout:more_than_100_small_contigs', 'layout:more_than_500_large_contigs', 'layout:last_small_contig_holds_supplementary_records_only', 'option:skip_contig', 'names:runs', 'names:success_reported', 'names:refused_or_failed_without_success_marker', 'fault:class:OSError', 'fault:class:RuntimeError', 'oracle:status_read', 'oracle:success_verified',
+REQUIRED_MONITORS = ['trace:steps_recorded', 'fault:fired', 'fault:raise', 'fault:exit', 'fault:kill', 'fault:persistent', 'history:stale_success_of_earlier_run', 'layout:more_than_100_small_contigs', 'layout:more_than_500_large_contigs', 'layout:last_small_contig_holds_supplementary_records_only', 'layout:contig_with_placed_unmapped_pairs_only', 'option:skip_contig', 'names:runs', 'names:success_reported', 'names:refused_or_failed_without_success_marker', 'fault:class:OSError', 'fault:class:RuntimeError', 'oracle:status_read', 'oracle:success_verified',
                      'clean:success', 'pipeline:single', 'pipeline:multi', 'fault:in_worker']
 SHARD_TIMEOUT = {'quick': 1200, 'thorough': 14400}
 SUCCESS = 'Reached end. All ok!'
@@ -211,6 +211,15 @@ def run_case(case):
         gen, recs, truths = F.simulate_library(r, method=method, contigs=contigs, n_cells=2, n_sites=[2, 4, 8, 450][case['size']], umis_per_site=(1, 2),
                                                copies=(1, 2), case_id=900 + case['cfg'], n_unmapped=[0, 1, 3, 3][case['size']],
                                                p_invalid=0.1 if method == 'nla' else 0)
+    if multi and not case.get('many_large') and recs:
+        # a scaffold that holds nothing but pairs flagged unmapped which keep a coordinate on it (unmapped in place by an upstream filter)
+        gen.refs.append(('scaffold_unmapped_in_place', 7000))
+        rid_ = max(F.id_from_name(x['name']) for x in recs) + 1
+        for _ in range(3):
+            recs.extend(F.unmapped_pair(r, rid_, 900 + case['cfg'], 1, F.rand_dna(r, 3), mx=F.MX_NLA if method == 'nla' else F.MX_CHIC_TRIMMED,
+                                        place=(len(gen.refs) - 1, r.randrange(0, 6000))))
+            rid_ += 1
+        acc.count('layout:contig_with_placed_unmapped_pairs_only')
     # every second shard of a configuration with several contigs leaves the first contig out (-skip_contig): its records are not part of the
     # run, everything behind it is
     skipped = gen.refs[0][0] if (len(gen.refs) > 1 and case['part'] % 2 == 1 and not case.get('many_contigs')) else None
